@@ -210,6 +210,72 @@ theorem map_updD_of_not_mem {β} {l : List Node} {n : Node} (data : Node → β)
   have : x ≠ n := fun he => hn (he ▸ hx)
   simp [updD, this]
 
+theorem mem_dictDel {c : PyDict} {k k' : Key} {n : Node} : (k', n) ∈ dictDel c k ↔ (k', n) ∈ c ∧ k' ≠ k := by
+  simp [dictDel]
+
+theorem dictDel_keys_nodup {c : PyDict} {k : Key} (h : (c.map (·.1)).Nodup) : ((dictDel c k).map (·.1)).Nodup :=
+  h.sublist (List.filter_sublist.map _)
+
+theorem dictSet_of_not_mem {c : PyDict} {k : Key} {n : Node} (h : ∀ m, (k, m) ∉ c) :
+    dictSet c k n = c ++ [(k, n)] := by
+  unfold dictSet; rw [al_lookup_none h]; simp
+
+theorem Core.del {s : Lru} {l : List Node} (c : Core s l) {n : Node} (hn : n ∈ l) :
+    Core { s with cache := dictDel s.cache (s.data n).1, dll := remove s.dll n } (l.erase n) where
+  rep := rep_remove c.rep hn
+  keys := c.keys.sublist (List.erase_sublist.map _)
+  dict := dictDel_keys_nodup c.dict
+  mem := fun k' n' => by
+    rw [mem_dictDel, c.mem, List.Nodup.mem_erase_iff c.rep.nodup]
+    constructor
+    · rintro ⟨⟨hn', hk'⟩, hne⟩
+      refine ⟨⟨?_, hn'⟩, hk'⟩
+      rintro rfl; exact hne hk'.symm
+    · rintro ⟨⟨hne, hn'⟩, hk'⟩
+      refine ⟨⟨hn', hk'⟩, ?_⟩
+      intro he; exact hne (c.inj hn' hn (hk'.trans he))
+
+theorem Core.insert {s : Lru} {l : List Node} (c : Core s l) {n : Node} {k : Key} {v : Val} {d' : Dll}
+    (hn : n ∉ l) (hk : ∀ x ∈ l, (s.data x).1 ≠ k) (hr : Rep d' (n :: l)) :
+    Core { s with cache := dictSet s.cache k n, dll := d', data := updD s.data n (k, v) } (n :: l) := by
+  have hkc : ∀ m, (k, m) ∉ s.cache := fun m hm => by
+    have := (c.mem k m).1 hm
+    exact hk m this.1 this.2
+  have hdata : ∀ x ∈ l, updD s.data n (k, v) x = s.data x := by
+    intro x hx
+    have : x ≠ n := fun he => hn (he ▸ hx)
+    simp [updD, this]
+  have hkeys : l.map (fun x => (updD s.data n (k, v) x).1) = l.map (fun x => (s.data x).1) :=
+    List.map_congr_left (fun x hx => by rw [hdata x hx])
+  refine ⟨hr, ?_, ?_, ?_⟩
+  · show ((n :: l).map (fun x => (updD s.data n (k, v) x).1)).Nodup
+    rw [List.map_cons, hkeys, List.nodup_cons]
+    refine ⟨?_, c.keys⟩
+    simp only [updD, if_true, List.mem_map, not_exists, not_and]
+    intro x hx he; exact hk x hx he
+  · intro k' n'
+    show (k', n') ∈ dictSet s.cache k n ↔ n' ∈ n :: l ∧ (updD s.data n (k, v) n').1 = k'
+    rw [dictSet_of_not_mem hkc, List.mem_append, List.mem_singleton, List.mem_cons, c.mem, Prod.mk.injEq]
+    constructor
+    · rintro (⟨hn', hk'⟩ | ⟨rfl, rfl⟩)
+      · exact ⟨Or.inr hn', by rw [hdata n' hn']; exact hk'⟩
+      · exact ⟨Or.inl rfl, by simp [updD]⟩
+    · rintro ⟨rfl | hn', hk'⟩
+      · right; simpa [updD, eq_comm] using hk'
+      · left; exact ⟨hn', by rw [hdata n' hn'] at hk'; exact hk'⟩
+  · show ((dictSet s.cache k n).map (·.1)).Nodup
+    rw [dictSet_of_not_mem hkc, List.map_append, List.nodup_append]
+    refine ⟨c.dict, by simp, ?_⟩
+    intro a ha b hb hab
+    simp only [List.map_cons, List.map_nil, List.mem_singleton] at hb
+    obtain ⟨⟨k0, m⟩, hm, rfl⟩ := List.mem_map.1 ha
+    exact hkc m (by rw [← hb, ← hab]; exact hm)
+
+theorem map_insert {s : Lru} {l : List Node} {n : Node} {k : Key} {v : Val} (hn : n ∉ l) :
+    (n :: l).map (updD s.data n (k, v)) = (k, v) :: l.map s.data := by
+  rw [List.map_cons, map_updD_of_not_mem _ _ hn]
+  simp [updD]
+
 /-! ### the primitives -/
 
 theorem lru_get (cap : Nat) (s : Lru) (t : LruSpec.St) (k : Key) (h : Lru.R cap s t) :
@@ -230,14 +296,109 @@ theorem lru_get (cap : Nat) (s : Lru) (t : LruSpec.St) (k : Key) (h : Lru.R cap 
     have c' := c.perm hr (List.perm_cons_erase hn).symm
     refine ⟨⟨c'.inv hinv.cap_pos ?_, hcap, ?_⟩, rfl⟩
     · rw [length_cons_erase hn]; exact hl
-    · rw [c'.abs]
-      simp [map_erase_eq_without c.keys hn hk, ← hk]
+    · rw [c'.abs, map_erase_eq_without c.keys hn hk]
+      simp [← hk]
 
-theorem lru_init (cap : Nat) (h : 1 ≤ cap) : Lru.R cap (Lru.new cap) [] := sorry
+theorem lru_del (cap : Nat) (s : Lru) (t : LruSpec.St) (k : Key) (h : Lru.R cap s t) :
+    RelSt (Lru.R cap) s t (Lru.del s k) (LruSpec.del t k) := by
+  obtain ⟨hinv, hcap, rfl⟩ := h
+  obtain ⟨l, c, hl⟩ := hinv.core
+  rw [c.abs]
+  unfold Lru.del LruSpec.del
+  cases hg : dictGet s.cache k with
+  | none =>
+    rw [c.lookup_none (c.get_none.1 hg)]
+    exact ⟨rfl, hinv, hcap, c.abs⟩
+  | some n =>
+    obtain ⟨hn, hk⟩ := c.get_some.1 hg
+    rw [c.lookup_some hn hk]
+    simp only [Option.isSome_some, if_true]
+    have c' := c.del hn
+    rw [hk] at c'
+    refine ⟨c'.inv hinv.cap_pos ?_, hcap, ?_⟩
+    · exact Nat.le_trans (List.erase_sublist.length_le) hl
+    · rw [c'.abs, map_erase_eq_without c.keys hn hk]
 
-theorem lru_sim (cap : Nat) : Sim lruPrim (LruSpec.prim cap) (Lru.R cap) := sorry
+theorem lru_set (cap : Nat) (s : Lru) (t : LruSpec.St) (k : Key) (v : Val) (h : Lru.R cap s t) :
+    RelSt (Lru.R cap) s t (Lru.set s k v) (LruSpec.set cap t k v) := by
+  obtain ⟨hinv, hcap, rfl⟩ := h
+  obtain ⟨l, c, hl⟩ := hinv.core
+  rw [c.abs]
+  unfold Lru.set LruSpec.set
+  cases hg : dictGet s.cache k with
+  | some n =>
+    obtain ⟨hn, hk⟩ := c.get_some.1 hg
+    obtain ⟨d', hd, hr⟩ := mtf_ok c.rep hn
+    rw [c.lookup_some hn hk]
+    simp only [hd, Option.isSome_some, if_true]
+    have c1 : Core { s with data := updD s.data n (k, v) } l :=
+      c.updData (fun x _ => by
+        by_cases hx : x = n
+        · subst hx; simp [updD, hk]
+        · simp [updD, hx])
+    have c' := c1.perm hr (List.perm_cons_erase hn).symm
+    refine ⟨c'.inv hinv.cap_pos ?_, hcap, ?_⟩
+    · rw [length_cons_erase hn]; exact hl
+    · rw [c'.abs, map_erase_eq_without c.keys hn hk]
+      exact map_insert (not_mem_erase_self c.rep.nodup)
+  | none =>
+    have hnk := c.get_none.1 hg
+    rw [c.lookup_none hnk]
+    simp only [Option.isSome_none, Bool.false_eq_true, if_false, List.length_map]
+    by_cases hfull : s.cache.length ≥ s.cap
+    · have hfull' : l.length ≥ cap := by rw [← c.len, ← hcap]; exact hfull
+      have hne : l ≠ [] := by
+        intro he; rw [he] at hfull'
+        have := hinv.cap_pos; simp at hfull'; omega
+      have hn : l.getLast hne ∈ l := List.getLast_mem hne
+      have ht : s.dll.tail = some (l.getLast hne) := by
+        rw [c.rep.tail, List.getLast?_eq_some_getLast hne]
+      have hold : dictGet s.cache (s.data (l.getLast hne)).1 = some (l.getLast hne) := c.get_some.2 ⟨hn, rfl⟩
+      obtain ⟨d', hd, hr⟩ := mtf_ok c.rep hn
+      simp only [if_pos hfull, if_pos hfull', ht, hold, hd]
+      have c0 := c.del hn
+      have hn0 : l.getLast hne ∉ l.erase (l.getLast hne) := not_mem_erase_self c.rep.nodup
+      have c' := c0.insert (k := k) (v := v) hn0 (fun x hx => hnk x (List.mem_of_mem_erase hx)) hr
+      refine ⟨c'.inv hinv.cap_pos ?_, hcap, ?_⟩
+      · rw [length_cons_erase hn]; exact hl
+      · rw [c'.abs]
+        show (l.getLast hne :: l.erase (l.getLast hne)).map (updD s.data (l.getLast hne) (k, v)) = _
+        rw [map_insert hn0, erase_getLast_eq_dropLast c.rep.nodup hne, List.map_dropLast]
+    · have hfull' : ¬ l.length ≥ cap := by rw [← c.len, ← hcap]; exact hfull
+      simp only [if_neg hfull, if_neg hfull']
+      have hr := repr_prepend c.rep
+      have hn0 : s.dll.fresh ∉ l := fun hx => Nat.lt_irrefl _ (c.rep.fresh _ hx)
+      have c' := c.insert (k := k) (v := v) hn0 hnk hr
+      refine ⟨c'.inv hinv.cap_pos ?_, hcap, ?_⟩
+      · have := c.len; simp only [List.length_cons]; omega
+      · exact c'.abs.trans (map_insert hn0)
+
+theorem lru_init (cap : Nat) (h : 1 ≤ cap) : Lru.R cap (Lru.new cap) [] := by
+  have c : Core (Lru.new cap) [] := ⟨repr_empty, by simp, by simp [Lru.new], by simp [Lru.new]⟩
+  exact ⟨c.inv h (Nat.zero_le _), rfl, c.abs⟩
+
+theorem lru_sim (cap : Nat) : Sim lruPrim (LruSpec.prim cap) (Lru.R cap) where
+  get := fun s t k h => lru_get cap s t k h
+  set := fun s t k v h => lru_set cap s t k v h
+  del := fun s t k h => lru_del cap s t k h
+  keys := fun s t h => by
+    obtain ⟨hinv, _, rfl⟩ := h
+    obtain ⟨l, c, _⟩ := hinv.core
+    show Lru.keys s = s.abs.map (·.1)
+    rw [c.abs, Lru.keys, walk_of_rep c.rep, List.map_map]
+    rfl
+  len := fun s t h => by
+    obtain ⟨hinv, _, rfl⟩ := h
+    obtain ⟨l, c, _⟩ := hinv.core
+    show s.cache.length = s.abs.length
+    rw [c.abs, c.len, List.length_map]
 
 /-- the relation implies well-formedness of the abstract state -/
-theorem lru_R_wf (cap : Nat) (s : Lru) (t : LruSpec.St) (h : Lru.R cap s t) : LruSpec.Wf cap t ∧ 1 ≤ cap := sorry
+theorem lru_R_wf (cap : Nat) (s : Lru) (t : LruSpec.St) (h : Lru.R cap s t) : LruSpec.Wf cap t ∧ 1 ≤ cap := by
+  obtain ⟨hinv, hcap, rfl⟩ := h
+  obtain ⟨l, c, hl⟩ := hinv.core
+  refine ⟨⟨?_, ?_⟩, hcap ▸ hinv.cap_pos⟩
+  · rw [c.abs, List.map_map]; exact c.keys
+  · rw [c.abs, List.length_map, ← hcap]; exact hl
 
 end WindVerif.Cache
